@@ -42,7 +42,7 @@ REQUIRED_COUNTERS = [
     "c16.spmatrix.duplicates", "c16.spmatrix.explicit-zeros", "c16.spmatrix.empty-pattern", "c16.spmatrix.size-argument",
     "c16.index.list-neg", "c16.index.imat-neg", "c16.index.slice", "c16.index.int", "c16.index.negint",
     "c16.operands.sparse-sparse", "c16.operands.sparse-dense", "c16.operands.dense-sparse", "c16.operands.sparse-number",
-    "c16.operands.sparse-1x1", "c16.partial.True", "c16.tc.d", "c16.tc.z", "c16.ccs-checks",
+    "c16.operands.sparse-1x1", "c16.partial.True", "c16.base.gemm.all-sparse-complex-partial-one-conjugate", "c16.tc.d", "c16.tc.z", "c16.ccs-checks",
     "c16.shape.zero-dim", "c16.pattern-unchanged-checks",
 ]
 WATCHDOG = {"quick": 600, "thorough": 3000}
@@ -611,12 +611,19 @@ def run(ctx):
             m, n, k = sdim(rng), sdim(rng), sdim(rng)
             ka, kb, kc = rng.choice("sd"), rng.choice("sd"), rng.choice("ssd")
             tA, tB = rng.choice("NNTC"), rng.choice("NNTC")
+            forced = rng.random() < 0.15
+            if forced:
+                # all-sparse complex product restricted to C's pattern, with exactly one conjugate-transposed factor
+                tc, ka, kb, kc = "z", "s", "s", "s"
+                tA, tB = rng.choice([("C", "N"), ("N", "C"), ("C", "T"), ("T", "C")])
+                m, n, k = max(m, 2), max(n, 2), max(k, 2)
+                ctx.count("c16.base.gemm.all-sparse-complex-partial-one-conjugate")
             C = fresh("C", kc, m, n, tc)
             if ls.dead:
                 return
             A = mat_src(ka, *((m, k) if tA == "N" else (k, m)), tc)
             B = mat_src(kb, *((k, n) if tB == "N" else (n, k)), tc)
-            partial = rng.choice([None, None, "True", "False"])
+            partial = "True" if forced else rng.choice([None, None, "True", "False"])
             if partial == "True":
                 ctx.count("c16.partial.True")
             lab = "base.gemm:%s%s%s:%s" % (ka, kb, kc, "partial" if partial == "True" else "full")
